@@ -103,7 +103,7 @@ struct Run {
     double tol = 1e-6, ctol = 1e-6;
     std::vector<double> x0;
     int seed = 7;
-    int forceFail = 0;        // 1: setMaxIterations(2) (IPOPT gives up), 2: wrong-sign gradient (line search fails)
+    int forceFail = 0;        // 1: setMaxIterations(2) (IPOPT gives up), 2: wrong-sign gradient (line search fails), 3: CMA-ES budget capped at 40 iterations
 };
 
 static const char* algName(int a) {
@@ -213,7 +213,8 @@ static void predicates(const Prob& P, const Run& R, int alg, double fret, const 
         vh::P("constraints_within_tolerance", key + ".feasible", worst, R.ctol * 1.000001);
     }
     // (5) strictly convex problems: the returned point is the (designed, KKT-certified) unique minimiser within tolerance
-    if (P.haveStar && R.forceFail != 2) {      // (a user-supplied wrong gradient voids the optimality claim, not the others)
+    if (P.haveStar && R.forceFail != 2 && R.forceFail != 3) {   // 3: CMA-ES run with a capped budget (limits lattice): convergence not claimed
+             // (a user-supplied wrong gradient voids the optimality claim, not the others)
         double e2 = 0; for (int i = 0; i < n; ++i) e2 += (xret[i] - P.xstar[i]) * (xret[i] - P.xstar[i]);
         vh::P("unique_minimiser_within_tol", key + ".nearopt", std::sqrt(e2), nearBound(alg, R, n, fret, P.fAt(P.xstar.data()), P.hasLim));
     }
@@ -230,7 +231,7 @@ static int runCase(Prob& P, const Run& R, const std::string& tag) {
         alg = (int)opt.getAlgorithm();
         opt.setConvergenceTolerance(R.tol);
         opt.setConstraintTolerance(R.ctol);
-        opt.setMaxIterations(R.forceFail == 1 ? 2 : (alg == CMAES ? 3000 : 1000));
+        opt.setMaxIterations(R.forceFail == 1 ? 2 : R.forceFail == 3 ? 40 : (alg == CMAES ? 3000 : 1000));
         opt.setLimitedMemoryHistory(20);
         opt.setDiagnosticsLevel(0);
         if (alg != CMAES) {
@@ -253,7 +254,7 @@ static int runCase(Prob& P, const Run& R, const std::string& tag) {
             // reproducibility with a fixed seed: a second optimizer on the same system must return identical bits
             std::vector<Prob::Ev> keepLog = P.log; long c0 = P.cnt[0]; std::vector<double> eL = P.envLo, eH = P.envHi;
             Optimizer opt2(P, CMAES);
-            opt2.setConvergenceTolerance(R.tol); opt2.setMaxIterations(3000); opt2.setDiagnosticsLevel(0);
+            opt2.setConvergenceTolerance(R.tol); opt2.setMaxIterations(R.forceFail == 3 ? 40 : 3000); opt2.setDiagnosticsLevel(0);
             opt2.setAdvancedIntOption("seed", R.seed); opt2.setAdvancedRealOption("init_stepsize", 0.5);
             opt2.setAdvancedRealOption("maxTimeFractionForEigendecomposition", 1);
             Vector y(n); for (int i = 0; i < n; ++i) y[i] = R.x0[i];
@@ -276,7 +277,7 @@ static int runCase(Prob& P, const Run& R, const std::string& tag) {
         return 2;
     }
     vh::D(std::string(algName(alg)) + "." + tag + (status ? ".EXC" : ".ok"));
-    if (R.forceFail == 0 && alg >= 0 && alg < 8) { gTotal[alg]++; if (status == 0) gOk[alg]++; }
+    if ((R.forceFail == 0 || R.forceFail == 3) && alg >= 0 && alg < 8) { gTotal[alg]++; if (status == 0) gOk[alg]++; }
     vh::D("req." + std::string(algName(R.req)) + "->" + algName(alg));
     // wrapper logic: which user virtuals may be called
     if (alg != CMAES) {
@@ -364,6 +365,51 @@ static void genRosen(vh::Rng& g, Prob& P, int n, bool box) {
     }
     P.finish();
 }
+// ---- limits lattice: convex SEPARABLE objective f = 1/2|x|^2 - b'x (A = I) with a designed constrained minimiser
+// limKind 0 two-sided, 1 lower-only, 2 upper-only, 3 mixed, 4 some infinite;  optBoundary: about half the bounded coordinates active
+static void genLattice(vh::Rng& g, Prob& P, int n, int limKind, bool optBoundary) {
+    P.n = n; P.ptype = 0; P.nEq = P.nIneq = 0; P.hasLim = true; P.cR = 1;
+    P.L.assign(n * n, 0.0); P.A.assign(n * n, 0.0); for (int i = 0; i < n; ++i) P.A[i * n + i] = 1.0;
+    P.C.clear(); P.d.clear(); P.mult.clear();
+    P.haveStar = true; P.xstar.assign(n, 0.0); for (auto& v : P.xstar) v = quarter(g, -8, 8);
+    P.lo.assign(n, -INF); P.hi.assign(n, INF); P.zlo.assign(n, 0.0); P.zhi.assign(n, 0.0); P.b.assign(n, 0.0);
+    bool any = false;
+    for (int i = 0; i < n; ++i) {
+        bool hasLo, hasHi;
+        switch (limKind) {
+            case 0: hasLo = hasHi = true; break;
+            case 1: hasLo = true; hasHi = false; break;
+            case 2: hasLo = false; hasHi = true; break;
+            case 3: { int k = g.below(3); hasLo = k != 2; hasHi = k != 1; break; }
+            default: { int k = g.below(4); hasLo = k == 1 || k == 3; hasHi = k == 2 || k == 3; if (i == n - 1 && !any) hasLo = true; break; }
+        }
+        any = any || hasLo || hasHi;
+        int act = optBoundary ? g.below(3) : 2;          // 0 lower active, 1 upper active, 2 inactive
+        if (hasLo) { if (act == 0) { P.lo[i] = P.xstar[i]; P.zlo[i] = g.smallInt(1, 6) / 2.0; } else P.lo[i] = P.xstar[i] - g.smallInt(1, 6) / 2.0; }
+        if (hasHi) { if (act == 1 || (act == 0 && !hasLo)) { P.hi[i] = P.xstar[i]; P.zhi[i] = g.smallInt(1, 6) / 2.0; } else P.hi[i] = P.xstar[i] + g.smallInt(1, 6) / 2.0; }
+        P.b[i] = P.xstar[i] - P.zlo[i] + P.zhi[i];
+    }
+    P.finish();
+}
+// startKind 0 interior, 1 on one face, 2 on an edge (two bounds), 3 on a corner (every bounded coordinate on one of its bounds)
+static void genLatticeStart(vh::Rng& g, const Prob& P, Run& R, int startKind) {
+    int n = P.n; R.x0.assign(n, 0.0);
+    std::vector<int> bounded;
+    for (int i = 0; i < n; ++i) {
+        bool fl = !std::isinf(P.lo[i]), fh = !std::isinf(P.hi[i]);
+        if (fl && fh) R.x0[i] = P.lo[i] + (P.hi[i] - P.lo[i]) * (1 + g.below(7)) / 8.0;
+        else if (fl) R.x0[i] = P.lo[i] + (1 + g.below(8)) / 4.0;
+        else if (fh) R.x0[i] = P.hi[i] - (1 + g.below(8)) / 4.0;
+        else R.x0[i] = P.xstar[i] + g.smallInt(-8, 8) / 8.0;
+        if (fl || fh) bounded.push_back(i);
+    }
+    int onBound = startKind == 0 ? 0 : startKind == 1 ? 1 : startKind == 2 ? 2 : (int)bounded.size();
+    for (int i = (int)bounded.size() - 1; i > 0; --i) std::swap(bounded[i], bounded[g.below(i + 1)]);
+    for (int k = 0; k < onBound && k < (int)bounded.size(); ++k) { int i = bounded[k];
+        bool fl = !std::isinf(P.lo[i]), fh = !std::isinf(P.hi[i]);
+        R.x0[i] = (fl && fh) ? (g.coin() ? P.lo[i] : P.hi[i]) : fl ? P.lo[i] : P.hi[i]; }
+}
+
 static void genStart(vh::Rng& g, const Prob& P, Run& R, bool forceFeasible) {
     R.x0.assign(P.n, 0.0);
     for (int i = 0; i < P.n; ++i) {
@@ -444,7 +490,28 @@ int main(int argc, char** argv) {
     vh::Rng g(args.seed * 7919 + 39);
     const bool haveIP = Optimizer::isAlgorithmAvailable(InteriorPoint), haveL = Optimizer::isAlgorithmAvailable(LBFGS),
                haveLB = Optimizer::isAlgorithmAvailable(LBFGSB), haveCM = Optimizer::isAlgorithmAvailable(CMAES);
+    long latticeSeen[4][3][4] = {{{0}}};
+    static const int latAlg[4] = {LBFGSB, InteriorPoint, CMAES, BestAvailable};
+    static const char* dimName[3] = {"n2", "n5", "n9to16"}; static const char* startName[4] = {"interior", "face", "edge", "corner"};
+    static const char* limName[5] = {"twoSided", "lowerOnly", "upperOnly", "mixed", "someInfinite"};
     for (long k = 0; k < args.n; ++k) {
+        if (k % 4 == 3) {
+            // limits lattice: optimizer x dimension class x start class are a function of (seed, k): every cell is guaranteed
+            long idx = k / 4 + 5 * (long)args.seed; int ai = (int)(idx % 4), di = (int)((idx / 4) % 3), si = (int)((idx / 12) % 4);
+            int alg = latAlg[ai]; if (!Optimizer::isAlgorithmAvailable((OptimizerAlgorithm)(alg == BestAvailable ? LBFGSB : alg))) continue;
+            int n = di == 0 ? 2 : di == 1 ? 5 : 9 + g.below(8);
+            int limKind = g.below(5); bool optB = g.coin();
+            Prob P; Run R; genLattice(g, P, n, limKind, optB); genLatticeStart(g, P, R, si);
+            R.req = alg; R.tol = alg == CMAES ? 1e-8 : pick3(g, 1e-4, 1e-6, 1e-8); R.ctol = 1e-6; R.seed = 1 + g.below(1000);
+            R.numGrad = (alg != CMAES && g.below(4) == 0); R.method = 1; if (R.numGrad) R.tol = std::max(R.tol, 1e-6);
+            if (alg == CMAES) R.forceFail = 3;          // capped budget: the limits predicates do not need convergence
+            std::string tag = std::string("lattice.") + dimName[di] + "." + startName[si] + "." + limName[limKind] + (optB ? ".optBoundary" : ".optInterior");
+            if (R.numGrad) tag += ".numC";
+            vh::D(std::string("lattice.") + algName(alg) + "." + dimName[di] + "." + startName[si]);
+            int st = runCase(P, R, tag);
+            if (st == 0) latticeSeen[ai][di][si]++;
+            continue;
+        }
         int n = 1 + g.below(maxN);
         if (g.below(4) == 0) n = 1 + g.below(3);
         int stream = g.below(20);
@@ -497,6 +564,14 @@ int main(int argc, char** argv) {
     }
     // floors: the result predicates are only evaluated when the optimizer returns; a regression that makes an algorithm throw
     // on (nearly) every problem must not pass silently.  Measured share of returning runs on the clean tree: 100 % for all four.
+    // every optimizer that supports limits must have reached the result predicates in the hardest cell (dimension 9..16, start on a
+    // corner) and in at least 10 of the 12 dimension x start cells
+    if (args.n >= 200) for (int ai = 0; ai < 4; ++ai) {
+        int cells = 0; for (int di = 0; di < 3; ++di) for (int si = 0; si < 4; ++si) if (latticeSeen[ai][di][si] > 0) ++cells;
+        vh::I("floor").i(100 + ai).i(12).i(cells).emit(); std::printf("O floor 1\n");
+        vh::P("guaranteed_class_reached_result_predicates", std::string("floor.lattice.") + algName(latAlg[ai]) + ".n9to16.corner", latticeSeen[ai][2][3] > 0 ? 0 : 1, 0);
+        vh::P("guaranteed_classes_reached_result_predicates", std::string("floor.lattice.") + algName(latAlg[ai]) + ".cells", 10 - cells, 0);
+    }
     for (int a : {(int)InteriorPoint, (int)LBFGS, (int)LBFGSB, (int)CMAES}) {
         if (gTotal[a] < 5) continue;
         vh::I("floor").i(a).i(gTotal[a]).i(gOk[a]).emit(); std::printf("O floor 1\n");
